@@ -98,7 +98,19 @@ def run(res, f, tier):
        {"paths": [(r["conds"], r["ret"]) for r in rows][:4]})
     build = find1(f, "build", "ruleset::builder::Builder")
     rows = summ(f, build, ["self"])
-    ob(len(rows) == 1 and rows[0]["ret"] in ("self", "RuleSet(self.rules, self.functions, self.symbols)"), "C15|build", "build must move the accepted rules, functions and symbols unchanged into the RuleSet: %s" % [r["ret"] for r in rows])
+    outs_b, _it = evalsum.summarize_fn(f, build, arg_names=["self"])
+    moved = {}
+    if len(outs_b) == 1:
+        rv = outs_b[0][3]
+        adt = f.adts.get("ruleset::RuleSet")
+        if rv[0] == "adt" and rv[1] == "ruleset::RuleSet" and adt:
+            for fld, val in zip(adt["variants"][0]["fields"], rv[3]):
+                moved[fld["name"]] = show(norm(val))
+        elif rows[0]["ret"] == "self":
+            moved = {k: "self." + k for k in ("rules", "functions", "symbols")}
+    # the three collections the builder accepted go unchanged into the ruleset (further fields are not C15's)
+    ob(len(rows) == 1 and all(moved.get(k) == "self." + k for k in ("rules", "functions", "symbols")), "C15|build",
+       "build must move the accepted rules, functions and symbols unchanged into the RuleSet: %s" % [r["ret"] for r in rows])
     # ------------------------------------------------------------------ functions
     add_boxed = find1(f, "add_boxed_function", "UserFunctions")
     reserved = find1(f, "is_reserved_keyword", "")
@@ -162,7 +174,24 @@ def run(res, f, tier):
     ob(not bad and any(r["ret"] == ALL for r in rows) and any(r["conds"].get(NX) == "fails" for r in rows), "C15|identifier",
        "a name is a valid identifier only if its first character is '_' or XID_Start AND all remaining characters are XID_Continue (empty: no): offending paths %s" % bad)
     rows = summ(f, reserved, ["name"])
-    ob(len(rows) == 1 and rows[0]["ret"].startswith("[str]::contains('") and rows[0]["ret"].endswith("', name)"), "C15|reserved", "is_reserved_keyword must test membership of the unmodified name in the keyword table: %s" % [r["ret"] for r in rows])
+    member_contains = len(rows) == 1 and rows[0]["ret"].startswith("[str]::contains('") and rows[0]["ret"].endswith("', name)")
+    # a binary search is a membership test only on a table sorted in the order the search compares by (byte order of &str)
+    member_bsearch = False
+    bs = [r for r in rows if any(c[0] == "[str]::binary_search" and c[-1] == "name" for c in r["calls"])]
+    if bs and len(bs) == len(rows):
+        words_in_order = []
+        for b_ in [b for d, b in f.bodies.items() if d.endswith("keywords::KEYWORDS") and b["kind"].startswith("Const")]:
+            for blk in b_["blocks"]:
+                for st_ in blk["stmts"]:
+                    if st_["k"] == "assign" and st_["rv"]["k"] == "agg" and st_["rv"]["ak"] == "array":
+                        words_in_order = [o["data"]["str"] for o in st_["rv"]["ops"] if o.get("k") == "const" and "data" in o and "str" in o["data"]]
+        sorted_ok = words_in_order == sorted(words_in_order, key=lambda w: w.encode()) and len(words_in_order) > 0
+        rets = set(r["ret"] for r in rows)
+        member_bsearch = sorted_ok and rets <= {"True", "False"} and all((r["ret"] == "True") == any(v == "ok" for k, v in r["conds"].items() if "binary_search" in k) for r in rows)
+        if not sorted_ok:
+            ob(False, "C15|reserved-unsorted", "is_reserved_keyword uses a binary search but the keyword table is not sorted in byte order, so some reserved words are never found: %s" %
+               [w for i, w in enumerate(words_in_order[1:]) if w.encode() < words_in_order[i].encode()][:5])
+    ob(member_contains or member_bsearch, "C15|reserved", "is_reserved_keyword must test membership of the unmodified name in the keyword table: %s" % [r["ret"] for r in rows])
     # keyword tables agree: every alphabetic keyword of the grammar is reserved for function names
     import grammar as _grammar
     import re as _re
@@ -182,7 +211,7 @@ def run(res, f, tier):
         if m:
             grammar_words.add(m.group(1))
     res.floor("reserved words", len(reserved_words), 38)
-    res.floor("keyword tokens of the grammar", len(grammar_words), 34)
+    res.floor("keyword tokens of the grammar", len(grammar_words), 20)
     missing = sorted(grammar_words - reserved_words)
     ob(not missing, "C15|keywords-agree", "keywords of the grammar that are not reserved as function names (a function of that name could be registered but never called): %s" % missing)
     # ------------------------------------------------------------------ who may write the tables
